@@ -672,6 +672,15 @@ pub fn fixed_specs(root: &N, m: &Material) -> Vec<Value> {
     out.push(json!({"rule": {"matches": "inner"}, "utils": utils}));
     out.push(json!({"rule": {"kind": pk, "has": {"all": [{"matches": "inner"}, {"kind": ck}], "stopBy": "end"}}, "utils": utils}));
   }
+  // two sibling nodes that TOUCH (the second starts at the byte the first ends at): both match,
+  // neither is nested in the other
+  if let Some((k1, k2)) = root.dfs().find_map(|n| {
+    let kids: Vec<N> = n.children().filter(|c| c.range().len() > 0).collect();
+    kids.windows(2).find(|w| w[0].range().end == w[1].range().start && w[0].is_named() && w[1].is_named() && !w[0].kind().is_empty() && !w[1].kind().is_empty() && w[0].kind() != "ERROR" && w[1].kind() != "ERROR")
+      .map(|w| (w[0].kind().to_string(), w[1].kind().to_string()))
+  }) {
+    out.push(json!({"rule": {"any": [{"kind": k1}, {"kind": k2}]}}));
+  }
   let mut picked = 0usize;
   for n in root.dfs() {
     if picked >= 4 {
